@@ -24,6 +24,7 @@ func c13(c *Ctx) {
 	c13diff(c)
 	c13resolver(c)
 	c13reload(c)
+	c13kube(c)
 }
 
 const discovPkg = "core/discov"
@@ -869,4 +870,199 @@ func c13reload(c *Ctx) {
 		c.R.Check(len(ee) == 0 && loops >= 1, rule, discovPkg+".(*container).doRemoveKey#all", "the key is filtered out of values[value] completely: the loop visits every element (a replayed PUT lists the key twice)", posOf(c, f), fmt.Sprintf("%v (loops: %d)", ee, loops), ee, loops)
 	}
 	c.R.Min(rule, 5, "watchStream wrap, watch reload, 2 listener copies, filter loop")
+}
+
+// ---------------------------------------------------------------- kube endpoints handler
+
+func c13kube(c *Ctx) {
+	rule := "C13.R8"
+	pkg := "zrpc/resolver/internal/kube"
+	inl := inlineNamed("notify")
+	for _, m := range []string{"OnAdd", "OnDelete", "Update"} {
+		lockGuardFn(c, rule, pkg+".(*EventHandler)."+m+"#lock", c.fn(rule, pkg, "(*EventHandler)."+m), "lock", []string{"endpoints"}, false, true, []string{"notify"}, false)
+	}
+	isUpdateCall := px.DynWhere(func(s *px.Sym) bool { return px.IsFieldLoad(s, "update", nil) })
+	for _, m := range []struct {
+		name string
+		add  bool
+	}{{"OnAdd", true}, {"OnDelete", false}} {
+		f := c.fn(rule, pkg, "(*EventHandler)."+m.name)
+		if f == nil {
+			continue
+		}
+		ps := c.paths(rule, f, px.Config{MaxVisits: 2, MaxPaths: 100000, Inline: inl})
+		c.forall(rule, pkg+".(*EventHandler)."+m.name, "each address is added only when absent / deleted only when present, keyed by its IP; the resolver is notified exactly once iff something changed; a foreign object has no effect", f, ps, func(p *px.Path) (bool, string) {
+			if p.Exit == px.ExitCut {
+				return true, ""
+			}
+			changes := 0
+			for i := range p.Events {
+				e := &p.Events[i]
+				isChange := false
+				var key *px.Sym
+				if m.add && e.Kind == px.EvMapUpdate && px.IsFieldLoad(e.Addr, "endpoints", nil) {
+					isChange, key = true, e.Key
+				}
+				if !m.add && e.Kind == px.EvCall && e.Call.Builtin == "delete" && px.IsFieldLoad(e.Call.Args[0], "endpoints", nil) {
+					isChange, key = true, e.Call.Args[1]
+				}
+				if !isChange {
+					continue
+				}
+				changes++
+				if !fieldLoadDeep(key, "IP", nil) {
+					return false, "an endpoint is keyed by something other than the address IP"
+				}
+				// guarded by a lookup of the same key with the right outcome
+				ok := false
+				for j := i - 1; j >= 0; j-- {
+					lk := &p.Events[j]
+					if lk.Kind == px.EvLookup && lk.Key.Strip(false) == key.Strip(false) {
+						present := findExtract(p, lk.Res, 1)
+						ok = present != nil && ((m.add && p.Abs(present).K == px.False) || (!m.add && p.Abs(present).K == px.True))
+						break
+					}
+				}
+				if !ok {
+					return false, "the set is changed without having established absence (add) / presence (delete) of that address"
+				}
+			}
+			ups := p.All(isUpdateCall)
+			if p.Exit != px.ExitReturn {
+				return true, ""
+			}
+			if changes > 0 && len(ups) != 1 {
+				return false, fmt.Sprintf("the address set changed but the resolver is notified ×%d", len(ups))
+			}
+			if changes == 0 && len(ups) != 0 {
+				return false, "the resolver is notified although nothing changed"
+			}
+			return true, ""
+		})
+	}
+	if f := c.fn(rule, pkg, "(*EventHandler).Update"); f != nil {
+		ps := c.paths(rule, f, px.Config{MaxVisits: 2, MaxPaths: 100000, Inline: inl})
+		epP := f.Params[1]
+		c.forall(rule, pkg+".(*EventHandler).Update", "the address set is replaced by a fresh map holding exactly the addresses of the new object (filled after the replacement), and the resolver is notified iff diff(previous set, new set)", f, ps, func(p *px.Path) (bool, string) {
+			if p.Exit == px.ExitCut {
+				return true, ""
+			}
+			var repl *px.Event
+			for _, e := range p.All(px.KindIs(px.EvStore)) {
+				if px.FieldAddrIs(e.Addr, "endpoints", nil) {
+					if repl != nil {
+						return false, "the set is replaced twice"
+					}
+					repl = e
+				}
+			}
+			if repl == nil || repl.Val.Strip(false).Kind != px.KMakeMap {
+				return false, "the set is not replaced by a fresh map (addresses that disappeared would stay published)"
+			}
+			for _, u := range p.All(px.KindIs(px.EvMapUpdate)) {
+				if u.Seq < repl.Seq {
+					return false, "addresses are stored before the set is replaced (they are lost)"
+				}
+				if u.Addr.Strip(false) != repl.Val.Strip(false) {
+					return false, "addresses are stored into a map other than the new set"
+				}
+				if !fieldLoadDeep(u.Key, "IP", nil) || !dependsOn(p, u.Key, p.ParamSym(epP)) {
+					return false, "a stored key is not an address IP of the new object"
+				}
+			}
+			d := p.All(calleeIs(pkg + ".diff"))
+			if p.Exit != px.ExitReturn {
+				return true, ""
+			}
+			if len(d) != 1 {
+				return false, "diff is not evaluated exactly once"
+			}
+			if d[0].Call.Args[1].Strip(false) != repl.Val.Strip(false) || !px.IsFieldLoad(d[0].Call.Args[0], "endpoints", nil) {
+				return false, "diff does not compare the previous set with the new one"
+			}
+			ups := p.All(isUpdateCall)
+			if (p.Abs(d[0].Res).K == px.True) != (len(ups) == 1) || len(ups) > 1 {
+				return false, "the resolver is not notified exactly when the sets differ"
+			}
+			return true, ""
+		})
+		c.R.Check(len(earlyExitLoops(f)) == 0, rule, pkg+".(*EventHandler).Update#all", "every subset and every address is visited (no early exit)", posOf(c, f), fmt.Sprint(earlyExitLoops(f)), nil, 2)
+	}
+	if f := c.fn(rule, pkg, "diff"); f != nil {
+		ps := c.paths(rule, f, px.Config{MaxVisits: 2})
+		c.forall(rule, pkg+".diff", "true when the sizes differ or some key of the old set is missing from the new one; false only after every old key was found", f, ps, func(p *px.Path) (bool, string) {
+			if p.Exit != px.ExitReturn {
+				return true, ""
+			}
+			got := p.Abs(p.Results[0]).K
+			sizeDiffers := 0
+			for _, b := range p.All(px.KindIs(px.EvBranch)) {
+				cnd := b.Cond.Strip(true)
+				if cnd.Kind == px.KBinOp && isLenOf(cnd.X, func(x *px.Sym) bool { return true }) && isLenOf(cnd.Y, func(x *px.Sym) bool { return true }) {
+					sizeDiffers = triOf((cnd.Op == token.NEQ) == b.Taken)
+				}
+			}
+			if sizeDiffers == 0 {
+				return false, "sizes are not compared"
+			}
+			if sizeDiffers == 1 {
+				if got != px.True {
+					return false, "different sizes are reported as equal"
+				}
+				return true, ""
+			}
+			missing := false
+			for _, lk := range p.All(px.KindIs(px.EvLookup)) {
+				if !isParam(lk.Addr, f.Params[1]) {
+					return false, "keys are looked up in the wrong set"
+				}
+				if okS := findExtract(p, lk.Res, 1); okS != nil && p.Abs(okS).K == px.False {
+					missing = true
+				}
+			}
+			if missing != (got == px.True) {
+				return false, fmt.Sprintf("missing key=%v but result=%v", missing, got == px.True)
+			}
+			return true, ""
+		})
+	}
+	if f := c.fn(rule, pkg, "(*EventHandler).notify"); f != nil {
+		ps := c.paths(rule, f, px.Config{MaxVisits: 2})
+		c.forall(rule, pkg+".(*EventHandler).notify", "update is called once with a slice built from the keys of the current set", f, ps, func(p *px.Path) (bool, string) {
+			if p.Exit != px.ExitReturn {
+				return true, ""
+			}
+			ups := p.All(isUpdateCall)
+			if len(ups) != 1 {
+				return false, "update not called exactly once"
+			}
+			return true, ""
+		})
+		ranged := false
+		for _, b := range f.Blocks {
+			for _, ins := range b.Instrs {
+				if r, ok := ins.(*ssa.Range); ok && viaField(r.X, "endpoints") {
+					ranged = true
+				}
+			}
+		}
+		c.R.Check(ranged && len(earlyExitLoops(f)) == 0, rule, pkg+".(*EventHandler).notify#all", "all keys of the set are published (range over h.endpoints without early exit)", posOf(c, f), fmt.Sprintf("ranged=%v exits=%v", ranged, earlyExitLoops(f)), nil, 1)
+	}
+	if f := c.fn(rule, pkg, "(*EventHandler).OnUpdate"); f != nil {
+		ps := c.paths(rule, f, px.Config{})
+		c.forall(rule, pkg+".(*EventHandler).OnUpdate", "an unchanged resource version has no effect; otherwise the set is rebuilt from the NEW object", f, ps, func(p *px.Path) (bool, string) {
+			us := p.All(calleeIs(pkg + ".(*EventHandler).Update"))
+			if len(us) > 1 {
+				return false, "Update called more than once"
+			}
+			for _, u := range us {
+				a := u.Call.Args[1].Strip(false)
+				if a.Kind != px.KExtract || a.X.Kind != px.KTypeAssert || !isParam(a.X.X, f.Params[2]) {
+					return false, "the set is rebuilt from something other than the new object"
+				}
+			}
+			return true, ""
+		})
+	}
+	c.R.Min(rule, 10, "3 lock guards, OnAdd, OnDelete, Update (2), diff, notify (2), OnUpdate")
 }
